@@ -1065,7 +1065,10 @@ def process(ctx, cases, label, tie=True, expect=None):
     answers = vflib.driver_run(lines) if lines else []
     ans = {k: answers[3 * n:3 * n + 3] for n, k in enumerate(idx)}
     for k, (j, o) in enumerate(zip(cases, obs)):
-        ctx.count()
+        # the unit of evaluation is the transaction (each is rendered, re-read and compared on its own);
+        # distinct_nontrivial counts transactions too
+        ctx.count(max(1, len(j.get("xacts", []))))
+        ctx.feature("journals")
         account_features(ctx, j)
         text = texts[k]
         fails = oracle(j, o)
